@@ -154,7 +154,7 @@ class CovarianceMatrix(object):
                 subap_nj = 0
                 # Only loop over upper diagonal of covariance matrix as its symmetrical
                 for wfs_j in range(wfs_i+1):
-                    cov_xx, cov_yy, cov_xy = wfs_covariance(
+                    cov_xx, cov_yy, cov_xy, cov_yx = wfs_covariance(
                             self.n_subaps[wfs_i], self.n_subaps[wfs_j],
                             self.subap_layer_positions[layer_n][wfs_i], self.subap_layer_positions[layer_n][wfs_j],
                             self.subap_layer_diameters[layer_n][wfs_i], self.subap_layer_diameters[layer_n][wfs_j],
@@ -180,7 +180,7 @@ class CovarianceMatrix(object):
                             ] += cov_xx * r0_scale
                     self.covariance_matrix[
                             cov_mat_coord_x1 + self.n_subaps[wfs_i]: cov_mat_coord_x2 + self.n_subaps[wfs_i],
-                            cov_mat_coord_y1: cov_mat_coord_y2] += cov_xy * r0_scale
+                            cov_mat_coord_y1: cov_mat_coord_y2] += cov_yx * r0_scale
                     self.covariance_matrix[
                             cov_mat_coord_x1: cov_mat_coord_x2,
                             cov_mat_coord_y1 + self.n_subaps[wfs_j]: cov_mat_coord_y2 + self.n_subaps[wfs_j]
@@ -213,7 +213,7 @@ class CovarianceMatrix(object):
             thread_n = 0
             for wfs_i in range(self.n_wfs):
                 for wfs_j in range(wfs_i+1):
-                    cov_xx, cov_yy, cov_xy = self.cov_mats[thread_n]
+                    cov_xx, cov_yy, cov_xy, cov_yx = self.cov_mats[thread_n]
 
                     subap_ni = self.n_subaps[:wfs_i].sum()
                     subap_nj = self.n_subaps[:wfs_j].sum()
@@ -235,7 +235,7 @@ class CovarianceMatrix(object):
                             ] += cov_xx * r0_scale
                     self.covariance_matrix[
                             cov_mat_coord_x1 + self.n_subaps[wfs_i]: cov_mat_coord_x2 + self.n_subaps[wfs_i],
-                            cov_mat_coord_y1: cov_mat_coord_y2] += cov_xy * r0_scale
+                            cov_mat_coord_y1: cov_mat_coord_y2] += cov_yx * r0_scale
                     self.covariance_matrix[
                             cov_mat_coord_x1: cov_mat_coord_x2,
                             cov_mat_coord_y1 + self.n_subaps[wfs_j]: cov_mat_coord_y2 + self.n_subaps[wfs_j]
@@ -286,7 +286,7 @@ def wfs_covariance(n_subaps1, n_subaps2, wfs1_positions, wfs2_positions, wfs1_di
         L0: Outer scale of turbulence
 
     Returns:
-        slope covariance of X with X , slope covariance of Y with Y, slope covariance of X with Y
+        slope covariance of X with X , slope covariance of Y with Y, slope covariance of X with Y, slope covariance of Y with X
     """
 
     xy_seperations = calculate_wfs_seperations(n_subaps1, n_subaps2, wfs1_positions, wfs2_positions)
@@ -295,9 +295,13 @@ def wfs_covariance(n_subaps1, n_subaps2, wfs1_positions, wfs2_positions, wfs1_di
     cov_xx = compute_covariance_xx(xy_seperations, wfs1_diam, wfs2_diam, r0, L0)
     cov_yy = compute_covariance_yy(xy_seperations, wfs1_diam, wfs2_diam, r0, L0)
     cov_xy = compute_covariance_xy(xy_seperations, wfs1_diam, wfs2_diam, r0, L0)
+    # y-slopes of WFS 1 with x-slopes of WFS 2: the same expression with the two sub-aperture sizes exchanged
+    if wfs1_diam == wfs2_diam:
+        cov_yx = cov_xy
+    else:
+        cov_yx = compute_covariance_xy(xy_seperations, wfs2_diam, wfs1_diam, r0, L0)
 
-
-    return cov_xx, cov_yy, cov_xy
+    return cov_xx, cov_yy, cov_xy, cov_yx
 
 
 def calculate_wfs_seperations(n_subaps1, n_subaps2, wfs1_positions, wfs2_positions):
